@@ -9,8 +9,10 @@ K: the real `pytype.pytd.booleq` against the compiled Lean model (`drv_c17`):
     canonical strings, `KeyError` as `!`;
   * forced-order family: `_And`/`_Or` objects over *lists* in every permutation, to pin the lazy
     short-circuit/KeyError behaviour independently of the process' string-hash seed.
+  * purity: the model's terms are values, so K also checks that And/Or leave their operand objects and
+    simplify leaves its receiver unchanged (canonical text before/after).
 S: brute-force truth tables on the real Python objects (no Lean involved) + the normal-form promises of
-   the constructors' docstrings; shrinks the recipe.
+   the constructors' docstrings + operands keep their truth table after being used; shrinks the recipe.
 """
 import itertools
 import multiprocessing
@@ -88,6 +90,24 @@ def py_build(r):
   if k == "E":
     return B.Eq(r[1], r[2])
   return (B.And if k == "A" else B.Or)([py_build(c) for c in r[1]])
+
+
+def build_checked(r):
+  """Canonical text of the built term.  In the model terms are values; the real constructors must
+  therefore leave their operand objects untouched: a changed operand is appended to the answer (and so
+  shows up as a disagreement)."""
+  if r[0] not in "AO":
+    return canon(py_build(r))
+  B = booleq()
+  kids = [py_build(c) for c in r[1]]
+  before = [canon(k) for k in kids]
+  t = (B.And if r[0] == "A" else B.Or)(kids)
+  ans = canon(t)
+  after = [canon(k) for k in kids]
+  if before != after:
+    i = [a != b for a, b in zip(before, after)].index(True)
+    ans += " OPERAND-MUTATED #%d %s -> %s" % (i, before[i], after[i])
+  return ans
 
 
 def canon(t):
@@ -218,7 +238,7 @@ def run_unit(unit):
   expect = []   # (kind, payload, python answer)
   for r in unit.get("build", ()):
     try:
-      ans = canon(py_build(r))
+      ans = build_checked(r)
     except Exception as e:  # pylint: disable=broad-except
       ans = "EXC:" + type(e).__name__
     lines.append("B " + " ".join(rtoks(r)))
@@ -237,6 +257,11 @@ def run_unit(unit):
         fields.append(py_simplify_field(t, ct, tab))
       except Exception as e:  # pylint: disable=broad-except
         fields.append("EXC:" + type(e).__name__)
+    try:
+      if canon(t) != ct or raw_toks(t) != toks:
+        fields = ["RECEIVER-MUTATED " + canon(t)] + fields[1:]
+    except Exception as e:  # pylint: disable=broad-except
+      fields = ["EXC:" + type(e).__name__] + fields[1:]
     lines.append("S " + " ".join(toks))
     expect.append(("simp", (r, toks), fields))
   out = drv.batch(lines) if lines else []
@@ -375,9 +400,9 @@ def correspond(res, rng, tier):
     units.append({"build": c})
   for c in chunks(l30 + n31, 20):
     units.append({"simp": c, "tables": tabs3})
-  per_chunk = len(tabs3) if thorough else 16
+  per_chunk = 200 if thorough else 16
   for c in chunks(n32, 250):
-    units.append({"simp": c, "tables": tabs3 if thorough else rng.sample(tabs3, per_chunk)})
+    units.append({"simp": c, "tables": rng.sample(tabs3, per_chunk)})
   for c in chunks(n33, 250):
     units.append({"simp": c, "tables": rng.sample(tabs3, 16 if not thorough else 60)})
   dist["U3"] = {"atoms": len(l30), "depth1_recipes": len(d31) + len(d31x), "depth2_recipes": len(d32),
@@ -445,7 +470,7 @@ def correspond(res, rng, tier):
       "real set-iteration order; plus forced-order _And/_Or-over-list terms in all permutations. distinct_nontrivial = "
       "distinct real terms that are connectives + distinct (term, table) pairs whose result differs from the input "
       "(changed, FALSE or KeyError)" % (
-          "exhaustive" if thorough else "a seeded 10% sample", "all" if thorough else "16 seeded tables per 250-term chunk"))
+          "exhaustive" if thorough else "a seeded 10% sample", "200 seeded tables per 250-term chunk" if thorough else "16 seeded tables per 250-term chunk"))
   dist["totals"] = tot
   dist["distinct_real_terms"] = distinct_terms
   dist["units"] = len(units)
@@ -537,11 +562,29 @@ def assignments(vs, cs):
     yield dict(zip(vs, pick))
 
 
+def truth_table(t, vs, cs):
+  return [t_eval(t, lambda s, rho=rho: rho.get(s, s)) for rho in assignments(vs, cs)]
+
+
 def oracle_build(r, univ):
   """Failure description or None: built term vs the plain connectives under every assignment; normal form."""
   vs, cs = univ
   try:
-    t = py_build(r)
+    if r[0] in "AO":
+      B = booleq()
+      kids = [py_build(c) for c in r[1]]
+      tt_before = [truth_table(k, vs, cs) for k in kids]
+      shown = [canon(k) for k in kids]
+      t = (B.And if r[0] == "A" else B.Or)(kids)
+      tt_after = [truth_table(k, vs, cs) for k in kids]
+      if tt_before != tt_after:
+        i = [a != b for a, b in zip(tt_before, tt_after)].index(True)
+        return {"what": "an operand changed its meaning after being passed to the constructor",
+                "operand_index": i, "operand_before": shown[i], "operand_after": canon(kids[i]),
+                "truth_table_before": tt_before[i], "truth_table_after": tt_after[i],
+                "assignments_order": [list(vs), list(cs)]}
+    else:
+      t = py_build(r)
   except Exception as e:  # pylint: disable=broad-except
     return {"what": "constructor raised", "exception": repr(e)}
   d = normal_defect(t)
